@@ -407,8 +407,17 @@ def rule_fatlen(ctx, rep):
                     if base == ptr_e:
                         ok = True
                 # (A) the value the allocation was sized with
+                b_site = b
+                if not ok and b["kind"] in ("Fn", "AssocFn") and not balance.is_api(F, b) and len_e[0] == "arg":
+                    # the fat pointer is made in a private helper that is handed the length (`fn with_len(mem, len)`): judged
+                    # at its one call site, with the argument it is given there
+                    sites = [(cb, t3) for cb in F.body_list for _bj, t3 in cfg.Body(cb).calls() if atomics.callee_of(t3) == b["key"]]
+                    if len(sites) == 1 and len_e[1] - 1 < len(sites[0][1]["args"]):
+                        cb, t3 = sites[0]
+                        len_e = _nobb(symx.normalize_calls(F, symx.expr(F, cfg.Body(cb), t3["args"][len_e[1] - 1]), _priv))
+                        b_site = cb
                 if not ok:
-                    owner = F.body(b["owner"]) if b["kind"] == "Closure" else b
+                    owner = F.body(b_site["owner"]) if b_site["kind"] == "Closure" else b_site
                     OB = cfg.Body(owner)
                     sized_with = []
                     for bj, t2 in OB.calls():
@@ -435,7 +444,7 @@ def rule_fatlen(ctx, rep):
                             if s2["k"] == "assign" and s2["rv"]["k"] == "binop" and s2["rv"]["op"].startswith("Mul"):
                                 _len_factor(_nobb(symx.expr(F, OB, s2["rv"]["a"])), _nobb(symx.expr(F, OB, s2["rv"]["b"])))
                     cand = len_e
-                    if b["kind"] == "Closure" and len_e[0] == "proj" and len_e[1] == ("arg", 1) and len_e[2]:
+                    if b_site["kind"] == "Closure" and len_e[0] == "proj" and len_e[1] == ("arg", 1) and len_e[2]:
                         try:
                             k = int(len_e[2][0])
                         except ValueError:
@@ -443,7 +452,7 @@ def rule_fatlen(ctx, rep):
                         if k is not None:
                             for bl in owner["blocks"]:
                                 for s in bl["stmts"]:
-                                    if s["k"] == "assign" and s["rv"]["k"] == "agg" and s["rv"].get("agg") == "closure" and s["rv"].get("def") == b["key"] and k < len(s["rv"]["ops"]):
+                                    if s["k"] == "assign" and s["rv"]["k"] == "agg" and s["rv"].get("agg") == "closure" and s["rv"].get("def") == b_site["key"] and k < len(s["rv"]["ops"]):
                                         cand = _nobb(symx.expr(F, OB, s["rv"]["ops"][k]))
                     if any(cand == x for x in sized_with):
                         ok = True
